@@ -9,6 +9,7 @@ from harness.props.c07 import tape_lit as als_tape_lit, nonsym_op, max_ranks
 import scikit_tt.tensor_train as ttm
 from scikit_tt.tensor_train import TT
 import scikit_tt.solvers.ode as ode
+lib.guard_expm(ode)
 
 PROP_FILES = ['Props/C09.v']
 REQ = ['SkTT.Check.C09']
